@@ -37,10 +37,13 @@ type c09Case struct {
 	Seed   string    `json:"seed"`
 }
 
+// realNow is the CPU time (user+system) this lane's process has consumed: a lane runs its
+// cases one after the other, so the increase during a step is the work that step caused,
+// whatever else the machine is doing.  (time.Now is virtual inside a bubble.)
 func realNow() time.Duration {
-	var tv syscall.Timeval
-	syscall.Gettimeofday(&tv)
-	return time.Duration(tv.Sec)*time.Second + time.Duration(tv.Usec)*time.Microsecond
+	var ru syscall.Rusage
+	syscall.Getrusage(syscall.RUSAGE_SELF, &ru)
+	return time.Duration(ru.Utime.Sec+ru.Stime.Sec)*time.Second + time.Duration(ru.Utime.Usec+ru.Stime.Usec)*time.Microsecond
 }
 
 func randBytes(rng *rand.Rand, n int) []byte {
@@ -304,7 +307,7 @@ func runC09(c c09Case, rng *rand.Rand, r *rep.Report) (key, msg string, stats ma
 				time.Sleep(time.Millisecond)
 				rig.Wait()
 				if d := realNow() - t0; d > 1500*time.Millisecond && len(body) <= 65536 {
-					key, msg = classifyC09(st, "c09-work-out-of-proportion"), fmt.Sprintf("step %d (%s, %d bytes) kept the server busy for %v of real time", si, st.Desc, len(body), d)
+					key, msg = classifyC09(st, "c09-work-out-of-proportion"), fmt.Sprintf("step %d (%s, %d bytes) cost %v of CPU time", si, st.Desc, len(body), d)
 					return
 				}
 			}
@@ -377,8 +380,8 @@ func classifyC09(st c09Step, key string) string {
 func TestC09(t *testing.T) {
 	r := rep.New(t, "C09")
 	defer r.Flush()
-	r.Rule("grammar-based hostile client scripts (1-8 steps) against a server that also carries a canary session: HTTP requests with mutated methods, transport/EIO/sid/j/b64 query values (absent, repeated, garbage, huge, another session's id), content types, odd Origin/Accept-Encoding headers, bodies that are random, empty, bit-flipped/truncated/doubled valid payloads, inflated or malformed v3 length prefixes, invalid UTF-8/base64, delimiter floods, chunked; WebSocket/WebTransport frames of every packet type in every phase; upgrade candidates opened with another EIO value followed by heartbeats; hostile WebSocket handshakes; oracle: the process survives (each case journalled before it runs), handler panics recovered by net/http are counted, no step of <=64 KiB keeps the server busy > 1.5 s of real time, the canary still round-trips, and 90 s after everything closed no server goroutine is left in the bubble; distinct = script signature")
-	r.Assume("not coverage-guided: breadth comes from the grammar and the seed; 'out of proportion' is operationalised as > 1.5 s real time for an input of at most 64 KiB")
+	r.Rule("grammar-based hostile client scripts (1-8 steps) against a server that also carries a canary session: HTTP requests with mutated methods, transport/EIO/sid/j/b64 query values (absent, repeated, garbage, huge, another session's id), content types, odd Origin/Accept-Encoding headers, bodies that are random, empty, bit-flipped/truncated/doubled valid payloads, inflated or malformed v3 length prefixes, invalid UTF-8/base64, delimiter floods, chunked; WebSocket/WebTransport frames of every packet type in every phase; upgrade candidates opened with another EIO value followed by heartbeats; hostile WebSocket handshakes; 13 hostile first messages and a stream-less session on a real WebTransport server (QUIC on loopback); oracle: the process survives (each case journalled before it runs), handler panics recovered by net/http are counted, no step of <=64 KiB costs more than 1.5 s of CPU time, the canary still round-trips, and 90 s after everything closed no server goroutine is left in the bubble; distinct = script signature")
+	r.Assume("not coverage-guided: breadth comes from the grammar and the seed; 'out of proportion' is operationalised as > 1.5 s of process CPU time for an input of at most 64 KiB")
 	n := r.N(1200, 150000)
 	for i := 0; i < n; i++ {
 		if !r.Only(i) {
@@ -443,7 +446,7 @@ func runC09Spin(c c09Case, rng *rand.Rand, r *rep.Report) (key, msg string, stat
 		d := realNow() - t0
 		r.Obs("spin_lane_real_ms", int64(d/time.Millisecond))
 		if d > 500*time.Millisecond {
-			key, msg = "v3-binary-payload-inflated-length-spin", fmt.Sprintf("a %d-byte revision-3 binary payload declaring a 9999999-unit string packet kept the decoder busy for %v", len(body), d)
+			key, msg = "v3-binary-payload-inflated-length-spin", fmt.Sprintf("a %d-byte revision-3 binary payload declaring a 9999999-unit string packet cost %v of CPU time", len(body), d)
 		}
 		v.Stop()
 	})
